@@ -76,6 +76,13 @@ def gen_cases(tier):
             yield ('after', n)
     yield ('sweep', 0)
     yield ('sweep', 1)
+    # symbols as users get them: automatic mask (incl. ties between masks), numeric / alphanumeric content in every version
+    # (character count indicator widths), several segments in Micro QR symbols
+    for lvl in ('L', 'M', 'Q', 'H'):
+        for lo in range(0, 1000, 100):
+            yield ('auto', 1, lvl, lo)
+    for v in T.ORDER:
+        yield ('modes', v)
     for v, lvl in ((40, 'H'), (27, 'Q')) + (() if q else ((40, 'L'), (14, 'M'))):
         yield ('allblocks', v, lvl)
 
@@ -186,6 +193,55 @@ def run_case(case, acc):
             cells.reverse()
         for i, (v, lvl) in enumerate(cells):
             judge_symbol(acc, ('sweep1', 'as number %d of the %s sweep over all layouts' % (i, 'descending' if case[1] else 'ascending'), v, lvl), v, lvl, 1, 'sweep')
+    elif kind == 'auto':
+        _, v, lvl, lo = case
+        for x in range(lo, lo + 100):
+            for content in (str(x), 'R%d-S' % x):
+                qr = segno.make(content, version=v, error=lvl, boost_error=False)
+                rep = C.read(qr)
+                good = rep.syndromes_ok and rep.payload == content.encode()
+                acc.eval(('auto1', v, lvl, content), nontrivial=True, outcome=good, state=(v, lvl, 'auto', qr.mask))
+                acc.count('history_symbols')
+                if not good:
+                    acc.violation('invalid-codeword/%s-%s/auto-mask' % (v, lvl), 'make(%r, version=%r, error=%r) -> mask %r: %s' % (content, v, lvl, qr.mask,
+                                  ([p for p in rep.problems if 'syndromes' in p] or rep.problems or ['payload differs'])[0][:140]), ('auto1', v, lvl, content))
+    elif kind == 'auto1':
+        _, v, lvl, content = case
+        qr = segno.make(content, version=v, error=lvl, boost_error=False)
+        rep = C.read(qr)
+        if not (rep.syndromes_ok and rep.payload == content.encode()):
+            acc.violation('invalid-codeword/%s-%s/auto-mask' % (v, lvl), 'make(%r, version=%r, error=%r) -> mask %r: %s' % (content, v, lvl, qr.mask, rep.problems[:1]), case)
+        acc.eval(case, nontrivial=True, outcome=True)
+    elif kind == 'modes':
+        v = case[1]
+        for lvl in T.levels_of(v):
+            contents = []
+            for mode in ('numeric', 'alphanumeric'):
+                if T.mode_supported(mode, v):
+                    n = C.max_count(mode, v, lvl)
+                    if n >= 1:
+                        contents.append(C.content_of(mode, max(1, n * 3 // 4), 1))
+            if T.mode_supported('alphanumeric', v):
+                # several segments (list content): the sizes of all of them count
+                for parts in (['1', 'A'], ['12', 'AB', '3'], ['1', 'A', '2', 'B']):
+                    contents.append(parts)
+            for content in contents:
+                kw = {'version': v, 'boost_error': False}
+                if lvl is not None:
+                    kw['error'] = lvl
+                try:
+                    qr = segno.make(content, **kw)
+                except ValueError:
+                    continue
+                rep = C.read(qr)
+                want = (''.join(content) if isinstance(content, list) else content).encode()
+                good = (rep.version, rep.level) == (v, lvl) and rep.syndromes_ok and rep.payload == want and not [p for p in rep.problems if C.classify_problem(p) == 'stream']
+                acc.eval(('modes1', v, lvl, len(want), isinstance(content, list)), nontrivial=True, outcome=good, state=(v, lvl, 'modes', isinstance(content, list)))
+                acc.count('history_symbols')
+                if not good:
+                    acc.violation('invalid-codeword/%s-%s/%s' % (v, lvl, 'segments' if isinstance(content, list) else 'mode'),
+                                  'make(%r, **%r): %s' % (content if isinstance(content, list) else content[:20] + '...', kw,
+                                                          ([p for p in rep.problems if 'syndromes' in p] or rep.problems or ['payload differs'])[0][:140]), ('modes', v))
     elif kind in ('after1', 'sweep1'):
         judge_symbol(acc, case, case[2], case[3], 0.5 if kind == 'after1' else 1, kind[:-1])
     elif kind in ('single', 'pairs', 'shape', 'allblocks'):
